@@ -782,7 +782,7 @@ class DictArithmetic(dict):
         """
         if self:
             mult = value / max(abs(v) for v in self.values())
-            for k in self:
+            for k in tuple(self.keys()):
                 self[k] *= mult
 
     def subgraph(self, nodes, connections=None):
